@@ -4,7 +4,7 @@ the noise floor; it fails when a ratio is above RATIO or a case hits the cap."""
 import time
 
 RATIO = 3.0
-FLOOR = 0.004      # seconds: below this a measurement is noise
+FLOOR = 0.01       # seconds: below this a measurement is noise
 CAP = 4.0          # seconds: per-case timeout
 
 
@@ -31,7 +31,7 @@ def time_one(payload):
             pass
         dt = time.perf_counter() - t0
         best = dt if best is None else min(best, dt)
-        if dt > 0.2:
+        if dt > 0.5:
             break
     return best
 
